@@ -641,9 +641,75 @@ def u_write_patches(ctx):
         pt.set(C, "ChunkProcessingTask", type("Task", (C.ChunkProcessingTask,), {"__init__": lambda self, q, pc: setattr(self, "patch_queue", q)}))
         ctx.ghost.setdefault("loop_ghosts", {})[site] = [ghost]
         ctx.canary()
-        expect_no_exception(ctx, call(C.write_patches, "/cache", reader, None, overwrite=True, progress=False, max_workers=W), name)
+        pt.set(C, "Indicator", _C09.indicator_stub(ctx, reader, name))
+        expect_no_exception(ctx, call(C.write_patches, "/cache", reader, None, overwrite=True, progress=ctx.fresh_bool("progress"), max_workers=W), name)
     ctx.check(f"{name}/post:every_chunk_mapped_once", ghost.count == reader.K)
     ctx.check(f"{name}/post:sentinel_put_last_and_only_by_the_parent", mp.sentinel_sent and len(mp.queue_puts) == 1)
+
+
+# ---------------------------------------------------------------------------------------------------------
+# progress display on or off: the indicator is transparent
+# ---------------------------------------------------------------------------------------------------------
+
+@unit(P, "Indicator.__iter__", fuc=["yaw.utils.logging:Indicator.__iter__", "yaw.utils.logging:Indicator.__init__"], cases=[dict(root=r) for r in (True, False)])
+def u_indicator(ctx, root):
+    """the progress indicator yields exactly the items of the wrapped iterable, each once and in order (on the root with display,
+    elsewhere without), so switching the progress display on changes nothing that is stored or counted"""
+    LG = mod("yaw.utils.logging")
+    fn = shadow.reload_function("yaw.utils.logging:Indicator.__iter__")
+    K = ctx.fresh_int("num_items", lo=0, size=True)
+    items = SSeq(K, lambda t: ("ITEM", t))
+    log = []
+
+    class G:
+        count = 0
+
+        def vc_havoc(self, c, n_):
+            self.count = c.fresh_int(n_, lo=0)
+
+        def vc_snapshot(self):
+            g = G()
+            g.count = self.count
+            return g
+    ghost = G()
+
+    class Printer:
+        def __init__(self, *a, **k):
+            pass
+
+        def start(self):
+            log.append("start")
+
+        def display(self, *a):
+            pass
+
+        def close(self, *a):
+            log.append("close")
+
+    def on_emit(v):
+        ctx.check("C02/Indicator/pre@yield:the_next_item_of_the_iterable", v[0] == "ITEM" and bool(v[1] == ghost.count))
+        ghost.count = ghost.count + 1
+    name = "C02/Indicator.__iter__"
+    from pyvc.unit import find_site
+    with Patches() as pt:
+        pt.set(LG, "on_root", lambda *a, **k: root)
+        pt.set(LG, "ProgressPrinter", Printer)
+        # (without a total the display uses NaN fractions, outside the real-number model: a total is given, as at the call sites)
+        ind = expect_no_exception(ctx, call(LG.Indicator, items, ctx.fresh_int("total", lo=1)), "C02/Indicator.__init__")
+        ctx.check("C02/Indicator.__init__/post:wraps_the_iterable_itself", ind.iterable is items)
+        ctx.canary()
+        if root:
+            site = find_site("yaw.utils.logging:Indicator.__iter__", "self.iterable")
+            ctx.ghost["emit_hook"] = on_emit
+            ctx.ghost.setdefault("loop_ghosts", {})[site] = [ghost]
+            with use_loops({site: LoopSpec(inv=lambda L: And(ghost.count == L.j, L.i == L.j), fresh={"item": lambda L: ("ITEM", "?")})}):
+                expect_no_exception(ctx, call(fn, ind), name)
+            ctx.check(f"{name}/post:every_item_yielded_once_in_order", ghost.count == K)
+        else:
+            seen = []
+            ctx.ghost["emit_from_hook"] = lambda it: seen.append(it)
+            expect_no_exception(ctx, call(fn, ind), name)
+            ctx.check(f"{name}/post:delegates_to_the_iterable", seen == [items])
 
 
 # ---------------------------------------------------------------------------------------------------------
